@@ -33,6 +33,17 @@ type scase struct {
 	Rounds     int    `json:"rounds"`       //
 	ModDelayUS int    `json:"mod_delay_us"` // response modifier sleeps 0..this many µs per CONNECT (0: no modifier)
 	Race       bool   `json:"race,omitempty"`
+	Route      string `json:"route,omitempty"`  // downstream (default) | direct (in-memory transport only)
+	IdleS      int    `json:"idle_s,omitempty"` // long-lived tunnels: stay silent this many seconds, then talk again in both directions
+}
+
+// genAged draws a long-lived-tunnel case: the tunnels of one round exchange
+// data, stay silent for idle seconds (a lower bound, not a verdict), then both
+// ends of each talk again before closing.
+func genAged(r *vh.Run, stream string, g int, transport, route string, idle int) scase {
+	rng := r.Rng(stream, g)
+	return scase{Kind: "swarm", Stream: stream, Idx: g, Transport: transport, N: 6 + rng.Intn(7), Rounds: 1, Route: route, IdleS: idle,
+		ModDelayUS: []int{0, 300}[rng.Intn(2)]}
 }
 
 func genSwarm(r *vh.Run, stream string, g int, transport string, race bool) scase {
@@ -148,11 +159,21 @@ func (s *swarm) serveDS(conn net.Conn) {
 		return
 	}
 	t.dsLine.Store(h.Line)
+	s.serveTarget(conn, t, br, t.dsHead)
+}
+
+// serveTarget is the target of tunnel t on conn; head (the downstream proxy's
+// answer, empty on the direct route) and the target's first bytes go out in
+// ONE write.
+func (s *swarm) serveTarget(conn net.Conn, t *stun, br *bufio.Reader, head string) {
+	if head == "" {
+		s.track(conn)
+	}
 	e := &end{name: "target", conn: conn, rd: br, sendID: 0x700000 | uint32(t.no&0xffff), recvID: 0xC00000 | uint32(t.no&0xffff),
 		wrng: s.r.Rng(s.c.Stream+"/stw", s.c.Idx*4096+t.no), rrng: s.r.Rng(s.c.Stream+"/str", s.c.Idx*4096+t.no), chunk: "mixed", events: &s.events}
-	out := make([]byte, len(t.dsHead)+t.first)
-	copy(out, t.dsHead)
-	vh.StampInto(out[len(t.dsHead):], e.sendID, 0)
+	out := make([]byte, len(head)+t.first)
+	copy(out, head)
+	vh.StampInto(out[len(head):], e.sendID, 0)
 	if _, err := conn.Write(out); err != nil { // ONE write: head and first bytes travel together
 		conn.Close()
 		return
@@ -185,16 +206,25 @@ func runSwarm(r *vh.Run, c scase, budget *tunx.Budget) {
 	if c.Transport == "pipe" {
 		pl = tunx.NewListener("10.0.0.1:8080")
 		lis = pl
-		p.SetDownstreamProxy(&url.URL{Host: "downstream.c04.example:3128"})
+		if c.Route != "direct" {
+			p.SetDownstreamProxy(&url.URL{Host: "downstream.c04.example:3128"})
+		}
 		p.SetDial(func(network, addr string) (net.Conn, error) {
-			if addr != "downstream.c04.example:3128" {
+			s.mu.Lock()
+			t := s.byHost[addr]
+			s.mu.Unlock()
+			if (c.Route == "direct") != (t != nil) || (c.Route != "direct" && addr != "downstream.c04.example:3128") {
 				return nil, fmt.Errorf("dial %s: connection refused (harness)", addr)
 			}
 			px, tg := vh.Pipe(65536, "10.1.1.1:40000", addr)
 			s.mu.Lock()
 			s.pxEnds = append(s.pxEnds, px)
 			s.mu.Unlock()
-			go s.serveDS(tg)
+			if t != nil {
+				go s.serveTarget(tg, t, bufio.NewReaderSize(tg, 4096), "")
+			} else {
+				go s.serveDS(tg)
+			}
 			return px, nil
 		})
 	} else {
@@ -270,6 +300,10 @@ func runSwarm(r *vh.Run, c scase, budget *tunx.Budget) {
 		return false
 	}
 
+	fam := "concurrent-tunnels"
+	if c.IdleS > 0 {
+		fam = "long-lived-tunnels"
+	}
 	heads := []string{"HTTP/1.1 200 OK\r\n\r\n", "HTTP/1.1 200 Connection established\r\nProxy-Agent: verif-downstream\r\n\r\n", "HTTP/1.1 200 OK\r\nContent-Length: 0\r\n\r\n"}
 	no := 0
 	maxOverlap := 0
@@ -382,12 +416,12 @@ func runSwarm(r *vh.Run, c scase, budget *tunx.Budget) {
 				r.ViolationCase(c, "C04:connect-status:downstream", fmt.Sprintf("tunnel %d (%s): CONNECT through the downstream proxy answered status %d / error %v", t.no, t.host, atomic.LoadInt32(&t.status), t.headErr.Load()), nil)
 				return
 			}
-			if line, _ := t.dsLine.Load().(string); line != "CONNECT "+t.host+" HTTP/1.1" {
+			if line, _ := t.dsLine.Load().(string); c.Route != "direct" && line != "CONNECT "+t.host+" HTTP/1.1" {
 				r.ViolationCase(c, "C04:connect-forward:downstream", fmt.Sprintf("downstream proxy received request line %q for %s", line, t.host), nil)
 			}
 		}
 		// everything delivered, both ways, while the tunnels are open
-		okD := await("C04:delivery-stalled:target-to-client:concurrent-tunnels", "concurrent tunnels open and idle, but a client has not received all the bytes its target sent", func() bool {
+		okD := await("C04:delivery-stalled:target-to-client:"+fam, "concurrent tunnels open and idle, but a client has not received all the bytes its target sent", func() bool {
 			for _, t := range tuns {
 				e := t.tgt()
 				if e == nil || atomic.LoadInt32(&e.sendDone) != 1 || t.cli().Recv() < e.Sent() {
@@ -396,7 +430,7 @@ func runSwarm(r *vh.Run, c scase, budget *tunx.Budget) {
 			}
 			return true
 		})
-		okU := await("C04:delivery-stalled:client-to-target:concurrent-tunnels", "concurrent tunnels open and idle, but a target has not received all the bytes its client sent", func() bool {
+		okU := await("C04:delivery-stalled:client-to-target:"+fam, "concurrent tunnels open and idle, but a target has not received all the bytes its client sent", func() bool {
 			for _, t := range tuns {
 				e := t.tgt()
 				if e == nil || atomic.LoadInt32(&t.cli().sendDone) != 1 || e.Recv() < t.cli().Sent() {
@@ -405,6 +439,57 @@ func runSwarm(r *vh.Run, c scase, budget *tunx.Budget) {
 			}
 			return true
 		})
+		if c.IdleS > 0 && okD && okU {
+			// the tunnels stay open and silent (lower bound on their age), then
+			// every client and every target speaks again
+			time.Sleep(time.Duration(c.IdleS) * time.Second)
+			var pending int32
+			for _, t := range tuns {
+				rng := r.Rng(c.Stream+"/again", c.Idx*4096+t.no)
+				for _, x := range []struct {
+					e *end
+					n int
+				}{{t.cli(), 1 + rng.Intn(3000)}, {t.tgt(), 1 + rng.Intn(3000)}} {
+					x := x
+					atomic.AddInt32(&pending, 1)
+					go func() {
+						x.e.send(x.n, true)
+						atomic.AddInt32(&pending, -1)
+						atomic.AddInt64(&s.events, 1)
+					}()
+				}
+			}
+			what := fmt.Sprintf("tunnels open for %d s and silent, then both ends wrote again: ", c.IdleS)
+			okD = await("C04:delivery-stalled:target-to-client:"+fam, what+"a client has not received what its target sent", func() bool {
+				if atomic.LoadInt32(&pending) != 0 {
+					return false
+				}
+				for _, t := range tuns {
+					if t.cli().Recv() < t.tgt().Sent() {
+						return false
+					}
+				}
+				return true
+			})
+			okU = await("C04:delivery-stalled:client-to-target:"+fam, what+"a target has not received what its client sent", func() bool {
+				if atomic.LoadInt32(&pending) != 0 {
+					return false
+				}
+				for _, t := range tuns {
+					if t.tgt().Recv() < t.cli().Sent() {
+						return false
+					}
+				}
+				return true
+			})
+			for _, t := range tuns {
+				if t.tgt().Term() != 0 || t.cli().Term() != 0 {
+					r.ViolationCase(c, "C04:eof-propagation:spurious:"+fam, fmt.Sprintf("tunnel %d: an end observed end-of-stream (client term=%d, target term=%d) although neither end had closed", t.no, t.cli().Term(), t.tgt().Term()), nil)
+					break
+				}
+			}
+			r.Count("aged_tunnels", int64(len(tuns)))
+		}
 		// clients close; targets must see end-of-stream, then close; all released
 		for _, t := range tuns {
 			t.cli().closeFull()
@@ -442,16 +527,16 @@ func runSwarm(r *vh.Run, c scase, budget *tunx.Budget) {
 			e := t.tgt()
 			if m, _ := t.cli().mis.Load().(*mismatch); m != nil {
 				bad++
-				r.ViolationCase(c, "C04:bytes:target-to-client:concurrent-tunnels", fmt.Sprintf("tunnel %d of %d concurrent ones (%s, target spoke first with %d bytes in the downstream proxy's 200 write): target-to-client stream differs at offset %d: %s",
+				r.ViolationCase(c, "C04:bytes:target-to-client:"+fam, fmt.Sprintf("tunnel %d of %d concurrent ones (%s, target spoke first with %d bytes in the downstream proxy's 200 write): target-to-client stream differs at offset %d: %s",
 					t.no, c.N, t.host, t.first, m.Off, m.Kind), m)
 			}
 			if e != nil {
 				if m, _ := e.mis.Load().(*mismatch); m != nil {
 					bad++
-					r.ViolationCase(c, "C04:bytes:client-to-target:concurrent-tunnels", fmt.Sprintf("tunnel %d of %d concurrent ones: client-to-target stream differs at offset %d: %s", t.no, c.N, m.Off, m.Kind), m)
+					r.ViolationCase(c, "C04:bytes:client-to-target:"+fam, fmt.Sprintf("tunnel %d of %d concurrent ones: client-to-target stream differs at offset %d: %s", t.no, c.N, m.Off, m.Kind), m)
 				}
 				if okD && okU && okE && (e.Recv() != t.cli().Sent() || t.cli().Recv() != e.Sent()) {
-					r.ViolationCase(c, "C04:bytes-before-eof:concurrent-tunnels", fmt.Sprintf("tunnel %d: client got %d of %d, target got %d of %d", t.no, t.cli().Recv(), e.Sent(), e.Recv(), t.cli().Sent()), nil)
+					r.ViolationCase(c, "C04:bytes-before-eof:"+fam, fmt.Sprintf("tunnel %d: client got %d of %d, target got %d of %d", t.no, t.cli().Recv(), e.Sent(), e.Recv(), t.cli().Sent()), nil)
 				}
 				r.Count("bytes_compared", t.cli().Recv()+e.Recv())
 			}
@@ -496,6 +581,9 @@ func runSwarm(r *vh.Run, c scase, budget *tunx.Budget) {
 		nb = "12-16"
 	} else if c.N >= 8 {
 		nb = "8-11"
+	}
+	if c.IdleS > 0 {
+		md += "|idle=" + strconv.Itoa(c.IdleS) + "s|" + c.Route
 	}
 	r.Class("swarm|" + c.Transport + "|n=" + nb + "|moddelay=" + md + "|connects-in-flight=" + ob)
 	if c.Idx%8 == 1 {
